@@ -6,8 +6,8 @@ import (
 	"fmt"
 	"net/url"
 	"reflect"
-	"strings"
 	"sort"
+	"strings"
 	"time"
 
 	"github.com/spikeekips/mitum/base"
@@ -15,8 +15,8 @@ import (
 	isaacblock "github.com/spikeekips/mitum/isaac/block"
 	isaacnetwork "github.com/spikeekips/mitum/isaac/network"
 	isaacoperation "github.com/spikeekips/mitum/isaac/operation"
-	"github.com/spikeekips/mitum/launch"
 	isaacstates "github.com/spikeekips/mitum/isaac/states"
+	"github.com/spikeekips/mitum/launch"
 	"github.com/spikeekips/mitum/network/quicmemberlist"
 	"github.com/spikeekips/mitum/network/quicstream"
 	quicstreamheader "github.com/spikeekips/mitum/network/quicstream/header"
